@@ -33,8 +33,16 @@ ASSUMPTIONS = ["CLI error text is Debug-formatted, so for failing inputs only fa
 def state_doc(rng):
     """documents that would leave traces if any state were shared between transforms"""
     r = rng
-    k = r.randrange(8)
+    k = r.randrange(10)
     a, b = r.randint(1, 9), r.randint(1, 9)
+    if k >= 8:
+        # settings that parametrise the generated style rules (font size / family, theme), set inside the document, together
+        # with the classes whose rules depend on them - and the same classes without the settings
+        sizes = " ".join(r.sample(["d-text-smallest", "d-text-smaller", "d-text-small", "d-text-medium", "d-text-large", "d-text-larger", "d-text-largest",
+                                   "d-text-ol", "d-text-ol-thick", "d-text-monospace"], r.randint(1, 3)))
+        conf = r.choice(["", "", '<config font-size="%d"/>' % r.choice([2, 4, 6, 9]), '<config font-size="%s" font-family="%s"/>' % (r.choice(["2.5", "12"]), r.choice(["serif", "monospace"])),
+                         '<config theme="%s" font-size="%d"/>' % (r.choice(docgen.THEMES), r.choice([1, 5]))])
+        return '<svg>%s<rect wh="%d" text="s%d" class="%s"/><text xy="0 %d" text="t" class="%s"/></svg>' % (conf, a + 3, b, sizes, a + 8, r.choice(["d-text-large", "d-text-smaller d-text-bold"]))
     if k == 0:
         return '<svg><var v="%d"/><rect id="a" wh="$v" text="v=$v w=$w"/></svg>' % a
     if k == 1:
